@@ -28,6 +28,7 @@ static const char *op_names[G_N] = { "img", "freeze", "thaw", "insert", "lookup"
 #define DW 48
 #define DH 32
 #define MAXE 40000
+#define EXH_LEN 6
 
 typedef struct
 {
@@ -468,6 +469,31 @@ generate (uint64_t seed, int tier, const char *property, scenario_t *sc)
     int n_ops, i, small = HASH_SIZE <= 256;
     int keyspace;
     static const int chains[] = { 0, 0, 15, 16, 4 };
+    if (tier == 2)
+    {
+	/* exhaustive small scope: `seed` is an index; its base-14 digits are a history of
+	 * EXH_LEN operations over four keys that all collide ((1,5) (2,4) (3,3) (4,2)):
+	 * freeze, thaw, insert k, lookup k, remove k */
+	uint64_t x = seed;
+	sc_set (sc, "chain", 0);
+	sc_set (sc, "table_slots", HASH_SIZE);
+	sc_add (sc, G_IMG, 5, (int64_t)0, (int64_t)0, (int64_t)3, (int64_t)3, (int64_t)12345);
+	for (i = 0; i < EXH_LEN; i++)
+	{
+	    int d = (int)(x % 14); x /= 14;
+	    if (d == 0) sc_add (sc, G_FREEZE, 0);
+	    else if (d == 1) sc_add (sc, G_THAW, 0);
+	    else
+	    {
+		int k = (d - 2) % 4, what = (d - 2) / 4;
+		int64_t font = k, glyph = 4 - k;           /* font = 1 + k, glyph = 1 + (4 - k): sum 6 for all four */
+		if (what == 0) sc_add (sc, G_INSERT, 7, font, glyph, (int64_t)0, (int64_t)0, (int64_t)0, (int64_t)0, (int64_t)0);
+		else if (what == 1) sc_add (sc, G_LOOKUP, 2, font, glyph);
+		else sc_add (sc, G_REMOVE, 2, font, glyph);
+	    }
+	}
+	return;
+    }
     rng_seed (&r, seed, 6);
     keyspace = small ? (int)rng_range (&r, 6, HASH_SIZE + 6) : 40;
     n_ops = (int)rng_range (&r, 20, tier ? 160 : 90);
